@@ -114,7 +114,7 @@ class EquateKeepsWFR(Equate):
 class Translate(Contract):
     """translate(scale, zero): scale and zero.unit get ratio 1 both ways and offsets -/+ zero.magnitude"""
     qual = "measured.conversions.translate"
-    props = ("C10", "C08")
+    props = ("C10", "C08", "C19")  # C19: Dimension.scale registers the unit first, so translate must not fail on a well-formed zero point
     modifies = ("conversions._ratios", "conversions._offsets")
     ret = ("none",)
 
